@@ -1255,11 +1255,23 @@ func (c *Ctx) ruleAllEntries(rule string, fn *ssa.Function) {
 	var bad, undecided []string
 	good := 0
 	for _, r := range reads {
+		// the loop around the read: in its own function, or around the call that leads to it
 		var loop *natLoop
-		for _, l := range naturalLoops(r.fr.fn) {
-			if l.body[r.call.Block().Index] && (loop == nil || len(l.body) < len(loop.body)) {
-				loop = l
+		lfr := r.fr
+		var at ssa.Instruction = r.call
+		for lfr != nil && loop == nil {
+			for _, l := range naturalLoops(lfr.fn) {
+				if l.body[at.Block().Index] && (loop == nil || len(l.body) < len(loop.body)) {
+					loop = l
+				}
 			}
+			if loop != nil || lfr.parent == nil || lfr.site == nil {
+				break
+			}
+			at, lfr = lfr.site, lfr.parent
+		}
+		if loop == nil {
+			lfr = r.fr
 		}
 		lenOfStream := func(v ssa.Value) (*ssa.Call, bool) {
 			lc, ok := ir.StripConv(v).(*ssa.Call)
@@ -1269,7 +1281,7 @@ func (c *Ctx) ruleAllEntries(rule string, fn *ssa.Function) {
 			if id := ir.CallID(lc); id != "bytes.Buffer.Len" && id != "bytes.Reader.Len" {
 				return nil, false
 			}
-			return lc, dv.objectOf(lc.Call.Args[0], r.fr).same(r.obj)
+			return lc, dv.objectOf(lc.Call.Args[0], lfr).same(r.obj)
 		}
 		if loop == nil {
 			// one read: whole only if sized by the remaining length
@@ -1302,7 +1314,7 @@ func (c *Ctx) ruleAllEntries(rule string, fn *ssa.Function) {
 		// exits of the loop
 		verdict := ""
 		for bi := range loop.body {
-			b := r.fr.fn.Blocks[bi]
+			b := lfr.fn.Blocks[bi]
 			iff, ok := b.Instrs[len(b.Instrs)-1].(*ssa.If)
 			if !ok || loop.body[b.Succs[0].Index] && loop.body[b.Succs[1].Index] {
 				continue
